@@ -751,6 +751,53 @@ func checkC06NowDST(c c06NowCase, ctx *vCtx) *vFailure {
 	return nil
 }
 
+// ---------------------------------------------------------------------------
+// summary of a day that has 23 or 25 hours in the process zone, with records in its first and last hour (zone layout,
+// every record written with the offset the zone has at that moment)
+
+func c06ZoneDSTSpace() []c06Case {
+	plain := vLayout{Indent: "  ", Sep: ": ", EOL: "\n"}
+	type rec struct{ dd, min, off int }
+	mk := func(tz string, day int, argMin, argOff int, recs []rec) c06Case {
+		var s vScenario
+		s.Exact = true
+		s.Book = vDoc{Recs: []vRec{{Head: "meal", HL: vLayout{EOL: "\n"}, Lines: []vLine{{Kind: vkEntry, Name: "x", Num: "2", L: plain}}}}}
+		s.Recipes, s.Basics = []string{"meal"}, []string{"x"}
+		c := c06Case{Layout: c06ZoneLayout, Clock: true, Today: day, TZ: tz}
+		for i, r := range recs {
+			s.Days = append(s.Days, day+r.dd)
+			s.Log.Recs = append(s.Log.Recs, vRec{Head: "placeholder", HL: vLayout{EOL: "\n"}, Lines: []vLine{{Kind: vkEntry, Name: fmt.Sprintf("food %d", i), Num: fmt.Sprint(i + 1), L: plain}}})
+			c.Mins = append(c.Mins, r.min)
+			c.Offs = append(c.Offs, r.off)
+		}
+		c.S = s
+		c.Summary = &c06Bound{Kind: "date", Day: day}
+		c.BMins[0], c.BOffs[0] = argMin, argOff
+		return c
+	}
+	var out []c06Case
+	fall, spring := vDaysFromCivil(2021, 10, 31), vDaysFromCivil(2021, 3, 28)
+	// Europe/Berlin: +0100 in winter, +0200 in summer; the change happens at 01:00 UTC
+	for _, argMin := range []int{30, 12 * 60, 23*60 + 30} {
+		argOffFall, argOffSpring := 60, 120
+		if argMin == 30 {
+			argOffFall, argOffSpring = 120, 60
+		}
+		out = append(out,
+			mk("Europe/Berlin", fall, argMin, argOffFall, []rec{{-1, 23*60 + 30, 120}, {0, 30, 120}, {0, 2*60 + 30, 120}, {0, 2*60 + 30, 60}, {0, 12 * 60, 60}, {0, 23*60 + 30, 60}, {1, 30, 60}}),
+			mk("Europe/Berlin", spring, argMin, argOffSpring, []rec{{-1, 23*60 + 30, 60}, {0, 30, 60}, {0, 3*60 + 30, 120}, {0, 12 * 60, 120}, {0, 23*60 + 30, 120}, {1, 30, 120}}),
+			mk("UTC", fall, argMin, 0, []rec{{-1, 23*60 + 30, 0}, {0, 30, 0}, {0, 23*60 + 30, 0}, {1, 30, 0}}))
+	}
+	return out
+}
+
+func TestVerifC06ZoneDST(t *testing.T) {
+	space := c06ZoneDSTSpace()
+	vEnum(t, "C06", "c06.zonedst",
+		"summary of 2021-10-31 (25 hours in Europe/Berlin) and 2021-03-28 (23 hours), the date written at 00:30, 12:00 or 23:30 with the zone's own offset, process zone Europe/Berlin, records in the last hour of the previous day, the first, the repeated or skipped and the last hour of the day and the first hour of the next; oracle: the same file with the records outside that local calendar day deleted (zone rules from the time package)",
+		fmt.Sprintf("%d cases", len(space)), len(space), func(i int) c06Case { return space[i] }, checkC06)
+}
+
 func TestVerifC06NowDST(t *testing.T) {
 	var space []c06NowCase
 	type tr struct {
@@ -777,6 +824,7 @@ func TestVerifC06NowDST(t *testing.T) {
 
 func init() {
 	vRegister("C06", "c06.nowdst", checkC06NowDST)
+	vRegister("C06", "c06.zonedst", checkC06)
 	vRegister("C06", "c06.dst", checkC06)
 	vRegister("C06", "c06.random", checkC06)
 	vRegister("C06", "c06.enum", checkC06)
